@@ -163,6 +163,7 @@ def r06_2(ctx):
     condition_effects_are_sequenced(ctx)
     pending_effect_placement(ctx)
     temporary_name_is_its_key(ctx)
+    arm_statement_effects_taken_once(ctx)
     # nothing pending / nothing referenced -> the effect itself
     r = Runner(idx, keep_real=("chk_hybrid_dep",))
     def args0():
@@ -670,6 +671,45 @@ def condition_effects_are_sequenced(ctx):
                 ok = isinstance(v, AObj) and any(f is v or (isinstance(v, AObj) and v.fields.get("wraps") is f) for f in flushed) and uses_cond
                 ctx.check(f"if (<value-producing operation>) with {bname}{' and else' if with_else else ''}: its effect is sequenced with the branch", ok,
                           "the result is the flushed effect that evaluates the condition", f"returns {lab(v)[:50]} (evaluates the condition: {uses_cond}; flushed: {[lab(f)[:20] for f in flushed]})", fn_where(idx, fi))
+
+
+def arm_statement_effects_taken_once(ctx):
+    """an if / else arm that is an operation whose value is not used (`if (c) i++;`, `else f(x);`): the arm's sequence takes the pending
+    effect over - it is a member of the arm and no longer pending afterwards (left pending, it would be sequenced a second time by the
+    next consumer or at the end of the behaviour: one effect, two parents)"""
+    idx = get_index(ctx.env)
+    for with_else in (False, True):
+        r = Runner(idx)
+        box = {}
+
+        def items(with_else=with_else):
+            t7 = r.pure("then_tmp", vt=mk_vt("t7", True, 32, ("PURE", "HYBRID_LVAR")), cls="LocalVar")
+            r.stubs[("then_tmp", "get_name")] = "h_tmp7"
+            it = [Tok("IF", "if"), r.pure("items[1]", vt=mk_vt("tc", True, 32)), t7]
+            if with_else:
+                t8 = r.pure("else_tmp", vt=mk_vt("t8", True, 32, ("PURE", "HYBRID_LVAR")), cls="LocalVar")
+                r.stubs[("else_tmp", "get_name")] = "h_tmp8"
+                it += [Tok("ELSE", "else"), t8]
+            return it
+
+        def over():
+            p7, p8 = eff(r, "pending7"), eff(r, "pending8")
+            h = AObj("ILOpsHolder", {"hybrid_effect_dict": {"h_tmp7": p7, "h_tmp8": p8}, "hybrid_op_count": 9, "read_ops": {}, "exec_ops": {}, "write_ops": {}, "let_ops": {}, "op_count": 20}, label="holder", opaque=False)
+            box["h"] = h
+            return {"il_ops_holder": h}
+
+        fi, outs = r.run("selection_stmt", items, self_over=over)
+        good = [o for o in outs if o.kind != "raise"]
+        ctx.need(good, "selection_stmt has no translating path for an arm that is a pending operation")
+        for o in good:
+            left = sorted(to_text(k) for k in box["h"].fields["hybrid_effect_dict"])
+            seqs = [e[2] for e in o.events if e[0] == "node" and e[1] == "Sequence"]
+            members = [x for sq in seqs for x in seq_effects(sq)]
+            exp_left = [] if with_else else ["h_tmp8"]
+            want = ["pending7"] + (["pending8"] if with_else else [])
+            ok = left == exp_left and all(members.count(w) == 1 for w in want)
+            ctx.check(f"if (c) <operation>;{' else <operation>;' if with_else else ''}: each arm takes its operation's pending effect over", ok, f"members {want} once each, still pending afterwards: {exp_left}",
+                      f"arm members {members}, still pending {left}", fn_where(idx, fi))
 
 
 @rule("R06.9", "C06", "the value an operation yields is the one C defines, and an operation that is folded away disappears completely: a call result is ret_val narrowed to the declared return type; dropping the temporary of a dead arm removes its pending effect in both emission orders", min_instances=6)
